@@ -109,6 +109,23 @@ def run(ctx):
             add('Dot11::from_bytes', bhdr + bytes([0, 3]) + b'abc' + bytes([code, ln]) + data)
             nn_opt = 0
             n_opt += 2
+    # link-layer headers that announce their own length: RadioTap (it_len against the chain of present words whose bit 31 announces
+    # another word) and PPI (pph_len against the 802.11-common field the FCS flag is read from), every announced length around the
+    # word / field boundaries, with and without bytes behind the header
+    for chain in range(0, 4):
+        for it_len in range(4, 8 + 4 * chain + 7):
+            for tail in ((0, 1, 4, 12, 30) if not quick else (0, 4, 30)):
+                for last_ext in (0, 1):
+                    words = [0x80000000 | rng.randrange(1 << 29) for _ in range(chain)] + [(0x80000000 if last_ext else 0) | rng.choice([0, 0x2e, 0x4008006f])]
+                    body = b''.join(struct.pack('<I', w) for w in words) + bytes(rng.randrange(256) for _ in range(24))
+                    add('RadioTap', (bytes([0, 0]) + struct.pack('<H', it_len) + body)[:max(it_len, 4)] + bytes(rng.randrange(256) for _ in range(tail)))
+                    n_opt += 1
+    for pph_len in range(4, 44):
+        for dlt in (105, 1, 127, 0):
+            for tail in ((0, 1, 4, 10, 24, 40) if not quick else (0, 4, 24)):
+                fld = struct.pack('<HH', rng.choice([2, 2, 2, 3, 0]), rng.choice([20, max(0, pph_len - 12), 0])) + bytes(rng.choice([0, 1, 0xff]) if i == 8 else rng.randrange(256) for i in range(40))
+                add('PPI', (bytes([0, 0]) + struct.pack('<HI', pph_len, dlt) + fld)[:max(pph_len, 8)] + bytes(rng.randrange(256) for _ in range(tail)))
+                n_opt += 1
     # DNS names whose decoded length sits around the 255-character limit, plain and reached through a pointer
     for total in range(248, 262):
         for shape in range(3 if quick else 8):
